@@ -30,6 +30,21 @@ def _fresh_seed_call(c: ast.Call) -> Optional[bool]:
     return False
 
 
+def _dominating_seeds(f, c: ast.Call):
+    """(fresh reseeds that dominate call c in function f, deterministic seedings before it)."""
+    seeds = [(s, _fresh_seed_call(s)) for s in calls_in(f.node) if _fresh_seed_call(s) is not None]
+    dom = [s for s, fresh in seeds if fresh and is_unconditional_top(f.node, s)
+           and top_level_index(f.node, s) < top_level_index(f.node, c)]
+    # a reseed inside the same loop body before the draw also dominates it
+    if not dom:
+        for s, fresh in seeds:
+            if fresh and enclosing_loops(s, f.node) and enclosing_loops(s, f.node)[-1] in enclosing_loops(c, f.node) \
+                    and not guards_of(s, enclosing_loops(s, f.node)[-1]) and s.lineno < c.lineno:
+                dom.append(s)
+    stale = [s for s, fresh in seeds if not fresh and s.lineno < c.lineno]
+    return dom, stale
+
+
 def check_m1(ctx) -> None:
     repo = ctx.repo
     workers = pool_workers(repo)
@@ -80,16 +95,14 @@ def check_m1(ctx) -> None:
             if init_ok:
                 ctx.ok('M1', key, where, 'pool initializer reseeds each worker from OS entropy')
                 continue
-            seeds = [(s, _fresh_seed_call(s)) for s in calls_in(f.node) if _fresh_seed_call(s) is not None]
-            dom = [s for s, fresh in seeds if fresh and is_unconditional_top(f.node, s)
-                   and top_level_index(f.node, s) < top_level_index(f.node, c)]
-            # a reseed inside the same loop body before the draw also dominates it
-            if not dom:
-                for s, fresh in seeds:
-                    if fresh and enclosing_loops(s, f.node) and enclosing_loops(s, f.node)[-1] in enclosing_loops(c, f.node) \
-                            and not guards_of(s, enclosing_loops(s, f.node)[-1]) and s.lineno < c.lineno:
-                        dom.append(s)
-            stale = [s for s, fresh in seeds if not fresh and s.lineno < c.lineno]
+            dom, stale = _dominating_seeds(f, c)
+            if not dom and not stale and f is not w:
+                # the draw sits in a helper of the worker: it is covered when every call of the helper in the worker is
+                sites = [c2 for c2 in calls_in(w.node) if dotted_name(c2.func) == f.name]
+                res = [_dominating_seeds(w, c2) for c2 in sites]
+                if sites and all(d and not st_ for d, st_ in res):
+                    dom = res[0][0]
+                stale = [x for _, st_ in res for x in st_]
             if stale:
                 ctx.bad('M1', key, where, f'the generator is seeded deterministically at line {stale[-1].lineno} '
                                           f'(`{norm(stale[-1])}`) before this draw: tasks replay identical samples')
@@ -102,16 +115,35 @@ def check_m1(ctx) -> None:
                         f'initializer): forked workers replay the parent\'s generator state')
 
 
+def _dispatch_arms(w) -> Tuple[List[Tuple[str, ast.If]], Optional[str], Optional[str]]:
+    """The `<selector>.startswith('<name>')` arms of the distribution dispatch; the selector is read through block-local aliases
+    (`distribution = input_value[1].strip()`).  Returns (arms, selector text, name of the settings entry the selector indexes)."""
+    from gxstat.inline import inline_block_locals
+    arms: List[Tuple[str, ast.If]] = []
+    sels: Set[str] = set()
+    entry: Set[str] = set()
+    for n in ast.walk(w.node):
+        if isinstance(n, ast.If) and isinstance(n.test, ast.Call) and isinstance(n.test.func, ast.Attribute) \
+                and n.test.func.attr == 'startswith' and n.test.args and isinstance(n.test.args[0], ast.Constant) \
+                and isinstance(n.test.args[0].value, str):
+            recv = inline_block_locals(n.test.func.value, n)
+            base = recv
+            while isinstance(base, (ast.Call, ast.Attribute, ast.Subscript)):
+                if isinstance(base, ast.Subscript) and isinstance(base.value, ast.Name) and isinstance(base.slice, ast.Constant) \
+                        and base.slice.value == 1:
+                    arms.append((n.test.args[0].value, n))
+                    sels.add(norm(recv))
+                    entry.add(base.value.id)
+                    break
+                base = base.func if isinstance(base, ast.Call) else base.value
+    return arms, (next(iter(sels)) if len(sels) == 1 else None), (next(iter(entry)) if len(entry) == 1 else None)
+
+
 def check_m3(ctx) -> None:
     repo = ctx.repo
     w = repo.function(MC, 'work_package')
-    arms: List[Tuple[str, ast.If]] = []
-    for n in ast.walk(w.node):
-        if isinstance(n, ast.If) and isinstance(n.test, ast.Call) and isinstance(n.test.func, ast.Attribute) \
-                and n.test.func.attr == 'startswith' and n.test.args and isinstance(n.test.args[0], ast.Constant):
-            recv = norm(n.test.func.value)
-            if recv.startswith('input_value[1]'):
-                arms.append((n.test.args[0].value, n))
+    arms, sel, ev = _dispatch_arms(w)
+    ctx.require(not arms or (sel is not None and ev is not None), 'work_package: the dispatch arms test different selectors (idiom changed)')
     gens = {st.targets[0].id for st in ast.walk(w.node) if isinstance(st, ast.Assign) and isinstance(st.value, ast.Call) and
             (dotted_name(st.value.func) or '').endswith('default_rng') and isinstance(st.targets[0], ast.Name)}
     names = [a for a, _ in arms]
@@ -133,7 +165,7 @@ def check_m3(ctx) -> None:
             inner = a
             while isinstance(inner, ast.Call) and dotted_name(inner.func) in ('float', 'int') and inner.args:
                 inner = inner.args[0]
-            if isinstance(inner, ast.Subscript) and norm(inner.value) == 'input_value' and isinstance(inner.slice, ast.Constant):
+            if isinstance(inner, ast.Subscript) and norm(inner.value) == ev and isinstance(inner.slice, ast.Constant):
                 idx.append(inner.slice.value)
             else:
                 idx.append(norm(a))
@@ -141,13 +173,30 @@ def check_m3(ctx) -> None:
         ctx.check(fn == name and idx == want, 'M3', key, where,
                   f'arm {name!r} calls np.random.{fn} with settings fields {idx} (expected np.random.{name} with fields {want})',
                   fact=f'np.random.{fn}({idx})')
-        # the sampled value is what is written to the input file and recorded in the row
-        app = [st for st in node.body if isinstance(st, ast.AugAssign) and norm(st.target) == 'input_file_entries']
-        tgt = [st for st in node.body if isinstance(st, ast.Assign) and st.value is c]
-        okrec = len(app) == 1 and len(tgt) == 1 and norm(app[0].value) == f"input_value[0] + ', ' + str({norm(tgt[0].targets[0])}) + '\\n'"
+        # the sampled value is what is written to the input file and recorded in the row: `entries += name + ', ' + str(value) + '\n'` in
+        # the arm itself, or once after the dispatch in the same loop body (then only under `value is not None`)
+        tgt = [st for st in node.body if isinstance(st, ast.Assign) and st.value is c and len(st.targets) == 1 and isinstance(st.targets[0], ast.Name)]
+        if len(tgt) != 1:
+            ctx.bad('M3', key + '/recorded', where, f'arm {name!r}: the drawn value is not bound to a name that is then recorded')
+            continue
+        v = tgt[0].targets[0].id
+        want_txt = f"{ev}[0] + ', ' + str({v}) + '\\n'"
+        app = [st for st in node.body if isinstance(st, ast.AugAssign) and isinstance(st.op, ast.Add) and isinstance(st.target, ast.Name)]
+        shared = False
+        if not app:
+            loops = enclosing_loops(node, w.node)
+            if loops:
+                lp = loops[-1]
+                for st in ast.walk(lp):
+                    if isinstance(st, ast.AugAssign) and isinstance(st.op, ast.Add) and isinstance(st.target, ast.Name) \
+                            and st.lineno > node.lineno and norm(st.value) == want_txt \
+                            and all(norm(t) == f'{v} is not None' and pol for t, pol in guards_of(st, lp)):
+                        app.append(st)
+                        shared = True
+        okrec = len(app) == 1 and norm(app[0].value) == want_txt
         ctx.check(okrec, 'M3', key + '/recorded', where,
                   f'arm {name!r}: the drawn value is not appended verbatim as `name, value` '
-                  f'({norm(app[0].value) if app else "no append"})')
+                  f'({norm(app[0].value) if app else "no append"})', fact=('shared append after the dispatch' if shared else 'append in the arm'))
         # prefix collisions between arms that are not mutually exclusive
     for a, na in arms:
         for b, nb in arms:
@@ -171,11 +220,13 @@ def result_row_facts(ctx, w):
     """Locate the locked append of the row. Returns (with_node, write_calls)."""
     withs = [n for n in w.node.body if isinstance(n, ast.With)]
     lock_with = None
+    lockers = {st.targets[0].id for st in ast.walk(w.node) if isinstance(st, ast.Assign) and isinstance(st.value, ast.Call)
+               and (dotted_name(st.value.func) or '').split('.')[-1] == 'Locker' and isinstance(st.targets[0], ast.Name)}
     for n in ast.walk(w.node):
         if isinstance(n, ast.With):
             for it in n.items:
                 src = norm(it.context_expr)
-                if src == 'FL' or 'Locker(' in src:
+                if src in lockers or 'Locker(' in src:
                     lock_with = n
     return lock_with
 
@@ -185,8 +236,19 @@ def check_m2(ctx) -> None:
     w = repo.function(MC, 'work_package')
     lock_with = result_row_facts(ctx, w)
     ctx.require(lock_with is not None, 'work_package: locked append (`with FL as r`) not found')
+    # the file handle is the third element of what the lock's context manager yields (`with FL as r: acquired, code, fd = r`)
+    asv = next((it.optional_vars for it in lock_with.items if it.optional_vars is not None), None)
+    fd = None
+    if isinstance(asv, ast.Name):
+        for st in ast.walk(lock_with):
+            if isinstance(st, ast.Assign) and isinstance(st.value, ast.Name) and st.value.id == asv.id and isinstance(st.targets[0], ast.Tuple) \
+                    and len(st.targets[0].elts) == 3 and isinstance(st.targets[0].elts[2], ast.Name):
+                fd = st.targets[0].elts[2].id
+    elif isinstance(asv, ast.Tuple) and len(asv.elts) == 3 and isinstance(asv.elts[2], ast.Name):
+        fd = asv.elts[2].id
+    ctx.require(fd is not None, 'work_package: the file handle yielded by the lock was not found (idiom changed)')
     writes = [c for c in calls_in(w.node) if isinstance(c.func, ast.Attribute) and c.func.attr in ('write', 'writelines')
-              and norm(c.func.value) == 'fd']
+              and norm(c.func.value) == fd]
     where = f'{w.module.rel}:{lock_with.lineno}'
     ctx.check(len(writes) == 1, 'M2', 'work_package/one-append', where,
               f'{len(writes)} writes to the result file per iteration (exactly one row per successful iteration)',
@@ -198,13 +260,21 @@ def check_m2(ctx) -> None:
         ctx.check(inside, 'M2', 'work_package/append-inside-lock', f'{w.module.rel}:{c.lineno}',
                   'the row is written outside the lock\'s with-block')
         g = [norm(t) for t, pol in guards_of(c, lock_with)]
-        ctx.check(all(x in ('fd is not None', 'acquired') for x in g), 'M2', 'work_package/append-guard', f'{w.module.rel}:{c.lineno}',
+        ctx.check(all(x in (f'{fd} is not None', 'acquired') for x in g), 'M2', 'work_package/append-guard', f'{w.module.rel}:{c.lineno}',
                   f'the append is additionally guarded by {g}')
-        ctx.check(len(c.args) == 1 and norm(c.args[0]) == 'result_s', 'M2', 'work_package/append-whole-row',
-                  f'{w.module.rel}:{c.lineno}', f'the append writes `{norm(c.args[0]) if c.args else ""}`, not the complete row')
-    # the row ends with a newline: last top-level update of result_s before the lock
+        row = c.args[0].id if len(c.args) == 1 and isinstance(c.args[0], ast.Name) else None
+        # the complete row is the string the output loop accumulates into (`row += value + ', '` inside a for loop)
+        accum = {st.target.id for lp in ast.walk(w.node) if isinstance(lp, ast.For) for st in ast.walk(lp)
+                 if isinstance(st, ast.AugAssign) and isinstance(st.op, ast.Add) and isinstance(st.target, ast.Name)
+                 and not any(st is x for x in ast.walk(lock_with))}
+        ctx.check(row is not None and row in accum, 'M2', 'work_package/append-whole-row',
+                  f'{w.module.rel}:{c.lineno}', f'the append writes `{norm(c.args[0]) if c.args else ""}`, not the complete row '
+                  f'(the accumulated row is {sorted(accum)})')
+    rows = {c.args[0].id for c in writes if len(c.args) == 1 and isinstance(c.args[0], ast.Name)}
+    row = next(iter(rows)) if len(rows) == 1 else None
+    # the row ends with a newline: last top-level update of the row before the lock
     ups = [st for st in w.node.body if isinstance(st, (ast.Assign, ast.AugAssign)) and
-           norm(st.targets[0] if isinstance(st, ast.Assign) else st.target) == 'result_s' and st.lineno < lock_with.lineno]
+           norm(st.targets[0] if isinstance(st, ast.Assign) else st.target) == row and st.lineno < lock_with.lineno]
     ctx.check(bool(ups) and isinstance(ups[-1], ast.AugAssign) and norm(ups[-1].value) == "'\\n'", 'M2',
               'work_package/row-newline-terminated', f'{w.module.rel}:{ups[-1].lineno if ups else w.node.lineno}',
               'the row handed to the append is not newline-terminated by the last update before the lock')
